@@ -12,7 +12,7 @@ Log(a, h) == hist' = Append(hist, [a |-> a, h |-> h, p |-> ProcOf(h)])
 StartOpen(h, a) == /\ pc[h] = "idle" /\ s.hs[h].st # "open" /\ Len(hist) < MaxActs
                    /\ pc' = [pc EXCEPT ![h] = a] /\ UNCHANGED <<s, hist>>
 \* mkdirs + open(LOCK): no effect on the model state, separate steps so that openers interleave
-TryLock(h) == /\ pc[h] \in {"open", "openstats", "openbad"}
+TryLock(h) == /\ pc[h] \in {"open", "openstats", "openbad", "openalias"}
               /\ LET r == Act(s, pc[h], h, ProcOf(h)) IN s' = r.s
               /\ Log(pc[h], h) /\ pc' = [pc EXCEPT ![h] = "idle"]
 Simple(a, h) == /\ pc[h] = "idle" /\ Len(hist) < MaxActs /\ Act(s, a, h, ProcOf(h)).res = "ok" /\ s.hs[h].st = "open"
@@ -22,8 +22,10 @@ Kill(p) == /\ Len(hist) < MaxActs /\ \E h \in Handles : s.hs[h].p = p /\ s.hs[h]
            /\ s' = Act(s, "kill", 0, p).s /\ hist' = Append(hist, [a |-> "kill", h |-> 0, p |-> p]) /\ UNCHANGED pc
 \* openbad only on a directory that exists already (somebody has owned it): on a fresh one it would create the store
 StartBad(h) == (\E i \in 1..Len(hist) : hist[i].a \in {"open", "openstats"}) /\ s.hs[h].st # "open" /\ StartOpen(h, "openbad")
-Next == \/ \E h \in Handles : StartOpen(h, "open") \/ StartOpen(h, "openstats") \/ StartBad(h) \/ TryLock(h)
-        \/ \E h \in Handles, a \in {"clone", "dropclone", "dropcas", "drop", "put"} : Simple(a, h)
+\* an alias exists once the directory does
+StartAlias(h) == (\E i \in 1..Len(hist) : hist[i].a \in {"open", "openstats"}) /\ StartOpen(h, "openalias")
+Next == \/ \E h \in Handles : StartOpen(h, "open") \/ StartOpen(h, "openstats") \/ StartBad(h) \/ StartAlias(h) \/ TryLock(h)
+        \/ \E h \in Handles, a \in {"clone", "dropclone", "dropcas", "drop", "put", "cleanup"} : Simple(a, h)
         \/ \E p \in Procs : Kill(p)
 Spec == Init /\ [][Next]_<<s, pc, hist>>
 Inv_C11_OneOwner == OneOwner(s) /\ HolderConsistent(s)
